@@ -1,10 +1,12 @@
 /-
   Driver for the C17 correspondence stream (`C17.describe`): the description the M12 model gives to
   a public-API matcher expression under a transformer, and the transformer's state afterwards.
+  Requests `{"seq": …}` (stream `C17.seq`): sequences of uses of matcher OBJECTS over a store of mutable
+  expected values (`Model/MatcherObj.lean`).
   Run: `lake env lean --run drivers/C17.lean`
 -/
 import LccModel.Proto
-import LccModel.Model.MatcherJson
+import LccModel.Model.MatcherObjJson
 open LccModel LccModel.Proto
 
-def main : IO Unit := loop (wrap LccModel.MatcherJson.handle)
+def main : IO Unit := loop (wrap LccModel.MatcherObjJson.handle)
